@@ -329,6 +329,13 @@ class SMUserList(UserList, ABC):
             raise ValueError("can't insert a multivalued element - must have len() == 1")
         self.data[i] = value.A
 
+    def __add__(self, other):
+        # list concatenation (inherited from UserList) only makes sense for
+        # objects of the same class
+        if isinstance(other, UserList) and type(other) != type(self):
+            raise TypeError("can't concatenate objects of different classes")
+        return super().__add__(other)
+
     # flag these binary operators as being not supported
     def __lt__(self, other):
         return NotImplementedError
